@@ -26,7 +26,9 @@ RULE = ("(a) EXHAUSTIVE: every one of the 10^6 sub-second microsecond values (x 
         "absolute form is wf_start_time plus those offsets. Non-trivial: microsecond value not a multiple of 1000, "
         "fractions within 2^18 of a unit boundary, or a track of length >= 2."
         " A further job writes datetime64[us] values from the whole representable range (incl. the ends of Python's "
-        'datetime range) as channel data and properties through a file.')
+        'datetime range) as channel data and properties through a file.'
+        ' Raw timestamp chunks of a lazily opened file are collected first and compared afterwards (second chunk '
+        'reversed); field accessors and scalar equality of TimestampArray are checked.')
 ASSUMPTIONS = [
     "exact time = 1904-01-01 + seconds + fractions/2^64 as a Fraction",
     "'within one unit' is checked as <= (1 + 1e-6) units: float64 evaluation may overshoot a unit by ~1e-10 units",
